@@ -765,6 +765,15 @@ func (self *BinaryServerProtocol) Close() error {
 	}
 	self.proxys = self.proxys[:1]
 	_ = self.slock.removeServerProtocol(self.session)
+	if self.inited {
+		self.slock.clientsGlock.Lock()
+		if sp, ok := self.slock.clients[self.proxys[0].clientId]; ok {
+			if sp == self {
+				delete(self.slock.clients, self.proxys[0].clientId)
+			}
+		}
+		self.slock.clientsGlock.Unlock()
+	}
 	willCommands := self.willCommands
 	if willCommands != nil {
 		self.willCommands = nil
